@@ -452,6 +452,9 @@ func emitType(b *strings.Builder, p *sdl.Program, t *sdl.Type) {
 			hn := t.Name + "G" + fr.Field
 			extra = append(extra, fmt.Sprintf("type %s struct {\n\tX%s %s `%s`\n}\n", hn, fr.Field, gt, frameInnerTag(gt)))
 			top.fields = append(top.fields, fmt.Sprintf("%s `json:\"emb\"`", hn))
+		case "prefixer":
+			// an untagged by-value struct whose POINTER type names a configuration prefix
+			top.fields = append(top.fields, fmt.Sprintf("%s simrt.CfgPD", fr.Field))
 		case "ptrEmbed", "ptrEmbedSet":
 			hn := t.Name + "Q" + fr.Field
 			extra = append(extra, fmt.Sprintf("type %s struct {\n\tY%s %s `%s`\n}\n", hn, fr.Field, gt, frameInnerTag(gt)))
